@@ -26,9 +26,11 @@ def _is(path, trait, method):
 
 
 class Abstraction:
-    def __init__(self, operand_kind):
-        """operand_kind(term) -> ('num'|'den'|'int', k, conditional_arg or None) or None for a leaf"""
+    def __init__(self, operand_kind, ordered=False):
+        """operand_kind(term) -> ('num'|'den'|'int', k, conditional_arg or None) or None for a leaf.
+        ordered=True keeps the operand order of subtractions (('sub', x, y)) for sibling comparison"""
         self.operand_kind = operand_kind
+        self.ordered = ordered
         self.used = set()       # atoms used
 
     def ab(self, t, depth=0):
@@ -89,6 +91,8 @@ class Abstraction:
                 return ('gcd', frozenset(xs))
             if ("impl core::ops::arith::Add" in p and p.endswith("::add") or "impl core::ops::arith::Sub" in p and p.endswith("::sub")) and p.startswith("dashu_int::"):
                 x, y = self.ab(args[0], depth + 1), self.ab(args[1], depth + 1)
+                if self.ordered and "impl core::ops::arith::Sub" in p:
+                    return ('sub', x, y)
                 return ('pm',) + tuple(sorted((x, y), key=repr))
             if "impl core::ops::arith::Rem" in p and p.endswith("::rem") and p.startswith("dashu_int::"):
                 return ('mod', self.ab(args[0], depth + 1), self.ab(args[1], depth + 1))
@@ -120,6 +124,8 @@ def estr(e):
         return "(%s±%s)" % (estr(e[1]), estr(e[2]))
     if k == 'mod':
         return "(%s mod %s)" % (estr(e[1]), estr(e[2]))
+    if k == 'sub':
+        return "(%s - %s)" % (estr(e[1]), estr(e[2]))
     if k == 'pow':
         return "%s^%s" % (estr(e[1]), e[2])
     return "?" + str(e[1])[:40]
